@@ -225,6 +225,7 @@ func main() {
 	fsmBounds(r, rng)
 	fsmAddressing(r, rng)
 	r.FloorCount("fsm_addressing_cases", int64(r.Pick(150, 1500)))
+	r.FloorCount("fsm_same_call_range_reads", int64(r.Pick(600, 6000)))
 	r.FloorCount("fsm_multi_predicate_txns", int64(r.Pick(1000, 10000)))
 	r.FloorCount("fsm_streams_drained_after_other_requests", int64(r.Pick(1000, 10000)))
 	r.FloorNontrivial(int64(r.Pick(100_000, 500_000)))
@@ -545,6 +546,76 @@ func fsmAddressing(r *ev.Run, rng *rand.Rand) {
 				out = append(out, d)
 			}
 			return fmt.Sprint(out)
+		}
+		// (0) one apply call: writes of keys of mixed lengths, then range reads of the same call
+		// (the reads see the call's own uncommitted writes through the write batch's index)
+		{
+			var es []sm.Entry
+			for j, nj := 0, 3+rng.Intn(6); j < nj; j++ {
+				idx++
+				k := rk()
+				if rng.Intn(2) == 0 {
+					k = pool[rng.Intn(len(pool))]
+				} else {
+					pool = append(pool, k)
+				}
+				var e sm.Entry
+				if rng.Intn(5) == 0 {
+					e = fsmx.Entry(idx, &pb.Command{Type: pb.Command_DELETE, Kv: &pb.KeyValue{Key: k}})
+				} else {
+					e = fsmx.Entry(idx, &pb.Command{Type: pb.Command_PUT, Kv: &pb.KeyValue{Key: k, Value: []byte(fmt.Sprintf("w%d", rng.Intn(3)))}})
+				}
+				es = append(es, e)
+			}
+			idx++
+			tx := &pb.Txn{Success: []*pb.RequestOp{rangeOp(), rangeOp(), rangeOp()}}
+			for j := range tx.Success {
+				if rq := tx.Success[j].GetRequestRange(); rq.RangeEnd == nil {
+					rq.Key, rq.RangeEnd = bound(), bound()
+				}
+			}
+			if rng.Intn(2) == 0 {
+				tx.Compare = []*pb.Compare{{Key: bound(), RangeEnd: bound()}}
+				tx.Failure = tx.Success
+			}
+			es = append(es, fsmx.Entry(idx, &pb.Command{Type: pb.Command_TXN, Txn: tx}))
+			idx++
+			lo, hi := bound(), bound()
+			es = append(es, fsmx.Entry(idx, &pb.Command{Type: pb.Command_DELETE, Kv: &pb.KeyValue{Key: lo}, RangeEnd: hi, Count: true}))
+			res, err := t.Update(es)
+			if err != nil {
+				fail("update-error", err.Error())
+				return
+			}
+			for j, e := range es {
+				exp := m.Apply(e.Index, fsmx.Decoded(e))
+				got := res[j].Result
+				switch {
+				case exp.IsTxn:
+					if (res[j].Value == 1) != exp.TxnSucceeded {
+						fail("range-bounds-differ-between-spaces", fmt.Sprintf("range predicate [%x,%x) evaluated in the apply call that wrote the keys: succeeded=%v, the reference says %v", tx.Compare[0].Key[:min(len(tx.Compare[0].Key), 12)], tx.Compare[0].RangeEnd[:min(len(tx.Compare[0].RangeEnd), 12)], res[j].Value == 1, exp.TxnSucceeded))
+						return
+					}
+					for i2, er := range exp.Responses {
+						if er.Range == nil || got == nil || i2 >= len(got.Responses) {
+							continue
+						}
+						if why := sameRange(got.Responses[i2].GetResponseRange(), er.Range.Full); why != "" {
+							rq := er.Range.Req
+							fail("range-bounds-differ-between-spaces", fmt.Sprintf("range [%x,%x) read in the apply call that wrote keys of mixed lengths: %s", rq.Key[:min(len(rq.Key), 12)], rq.RangeEnd[:min(len(rq.RangeEnd), 12)], why))
+							return
+						}
+					}
+				case len(exp.Responses) == 1 && exp.Responses[0].Del != nil && fsmx.Decoded(e).RangeEnd != nil:
+					if got != nil && len(got.Responses) == 1 {
+						if g, x := got.Responses[0].GetResponseDeleteRange().GetDeleted(), int64(len(exp.Responses[0].Del.Prev)); g != x {
+							fail("range-bounds-differ-between-spaces", fmt.Sprintf("range delete [%x,%x) with count in the apply call that wrote keys of mixed lengths: deleted=%d, the reference says %d", lo[:min(len(lo), 12)], hi[:min(len(hi), 12)], g, x))
+							return
+						}
+					}
+				}
+			}
+			r.Count("fsm_same_call_range_reads", 4)
 		}
 		// (1) transactions with several predicates, read-only path and log path
 		for i := 0; i < 12; i++ {
